@@ -14,6 +14,7 @@ import (
 	"fmt"
 	"io"
 	"sort"
+	"strings"
 	"sync"
 	"time"
 
@@ -527,6 +528,241 @@ func probeSubsecondWriteTime() string {
 	sort.Slice(fr, func(i, j int) bool { return fr[i] < fr[j] })
 	if len(fr) != 2 || fr[0] != 200000000 || fr[1] != 700000000 {
 		return fmt.Sprintf("FAIL stored row times lost the fractions of the write times set: %v", fr)
+	}
+	return "ok"
+}
+
+// C14: with a deadline set on the connection, no statement runs (much) past it, whichever storage
+// request the store goes silent on; afterwards the table is usable again.
+// classes: L (LIST), Gc (GET of a version), Gn (GET of a node), Pn (PUT node), Pc (PUT version),
+// Pm (PUT under merged/), Dc (DELETE under current/)
+var deadlineClasses = []string{"L", "Gc", "Gn", "Pn", "Pc", "Pm", "Dc"}
+
+func probeDeadline(class string) string {
+	px := newProxy()
+	px.stall = 6 * time.Second
+	if err := px.backend.CreateBucket("pd"); err != nil {
+		return "FAIL setup: " + err.Error()
+	}
+	db, err := sql.Open("sqlite3", ":memory:")
+	if err != nil {
+		return "FAIL " + err.Error()
+	}
+	defer db.Close()
+	db.SetMaxOpenConns(1)
+	t := fmt.Sprintf("pdl_t%d", nextCounter())
+	setup := []string{
+		fmt.Sprintf("create virtual table %s using s3db(s3_bucket='pd', s3_endpoint='%s', s3_prefix='t', columns='k primary key, v')", t, px.url),
+		"insert into " + t + " values(1,1)",
+		"insert into " + t + " values(2,2)",
+	}
+	for _, s := range setup {
+		if _, err := db.Exec(s); err != nil {
+			return "FAIL " + s + ": " + err.Error()
+		}
+	}
+	stmt := "insert into " + t + " values(3,3)"
+	if class == "L" || class == "Gc" || class == "Gn" {
+		stmt = fmt.Sprintf("select s3db_refresh('%s')", t)
+	}
+	match := func(kind, key string) bool {
+		switch class {
+		case "L":
+			return kind == "L"
+		case "Gc":
+			return kind == "G" && strings.Contains(key, "/root/current/")
+		case "Gn":
+			return kind == "G" && strings.Contains(key, "/node/")
+		case "Pn":
+			return kind == "P" && strings.Contains(key, "/node/")
+		case "Pc":
+			return kind == "P" && strings.Contains(key, "/root/current/")
+		case "Pm":
+			return kind == "P" && strings.Contains(key, "/root/merged/")
+		case "Dc":
+			return kind == "D" && strings.Contains(key, "/root/current/")
+		}
+		return false
+	}
+	stalled := false
+	px.mu.Lock()
+	px.plan = func(idx int, kind, key string) int {
+		if !stalled && match(kind, key) {
+			stalled = true
+			return fStall
+		}
+		return fOK
+	}
+	px.mu.Unlock()
+	// the deadline format has second granularity: 0.5 to 1.5 s from now
+	dl := time.Now().Add(1500 * time.Millisecond).UTC().Format(s3db.SQLiteTimeFormat)
+	if _, err := db.Exec("update s3db_conn set deadline=?", dl); err != nil {
+		return "FAIL set deadline: " + err.Error()
+	}
+	start := time.Now()
+	done := make(chan error, 1)
+	go func() {
+		_, err := db.Exec(stmt)
+		done <- err
+	}()
+	res := "ok"
+	select {
+	case <-done:
+	case <-time.After(4 * time.Second):
+		res = fmt.Sprintf("FAIL a statement whose %s request the store did not answer is still running %.1f s after the connection's deadline", class, time.Since(start).Seconds()-1.5)
+		<-done
+	}
+	px.mu.Lock()
+	px.plan = nil
+	reached := stalled
+	px.mu.Unlock()
+	if res != "ok" {
+		return res
+	}
+	if !reached {
+		return "FAIL probe: the statement sent no " + class + " request"
+	}
+	if _, err := db.Exec("update s3db_conn set deadline=NULL"); err != nil {
+		return "FAIL clear deadline: " + err.Error()
+	}
+	var n int
+	if err := db.QueryRow("select count(*) from " + t).Scan(&n); err != nil {
+		return "FAIL the table is unusable after the deadline expired: " + err.Error()
+	}
+	if n != 2 && n != 3 {
+		return fmt.Sprintf("FAIL %d rows after the deadline expired (2 or 3 expected)", n)
+	}
+	return "ok"
+}
+
+// C10: a vacuum reclaims EVERY delete marker older than its cutoff, wherever the row sits in a tree
+// of several levels: after deleting every other row of a 60-row table with 4 entries per node and
+// vacuuming with a later cutoff, the stored tree holds exactly the 30 live rows
+func probeVacuumReclaims() string {
+	px := getProxy()
+	bucket := fmt.Sprintf("pvr%d", nextCounter())
+	if err := px.backend.CreateBucket(bucket); err != nil {
+		return "FAIL setup: " + err.Error()
+	}
+	db, err := sql.Open("sqlite3", ":memory:")
+	if err != nil {
+		return "FAIL " + err.Error()
+	}
+	defer db.Close()
+	db.SetMaxOpenConns(1)
+	t := fmt.Sprintf("pvr_t%d", nextCounter())
+	steps := []string{
+		fmt.Sprintf("create virtual table %s using s3db(s3_bucket='%s', s3_endpoint='%s', s3_prefix='t0', entries_per_node=4, columns='k primary key, v')", t, bucket, px.url),
+		"update s3db_conn set write_time='2023-11-14 22:13:20'",
+		"begin",
+	}
+	for i := 0; i < 60; i++ {
+		steps = append(steps, fmt.Sprintf("insert into %s values(%d,%d)", t, i, i))
+	}
+	steps = append(steps, "commit", "update s3db_conn set write_time='2023-11-14 22:13:30'",
+		"delete from "+t+" where k % 2 = 0")
+	for _, s := range steps {
+		if _, err := db.Exec(s); err != nil {
+			return "FAIL " + s + ": " + err.Error()
+		}
+	}
+	for r := 0; r < 2; r++ {
+		var verr sql.NullString
+		if err := db.QueryRow("select vacuum_error from s3db_vacuum(?, ?)", t, "2023-11-14 22:13:40").Scan(&verr); err != nil {
+			return "FAIL vacuum: " + err.Error()
+		}
+		if verr.Valid && verr.String != "" {
+			return "FAIL vacuum: " + verr.String
+		}
+	}
+	var n int
+	if err := db.QueryRow("select count(*) from " + t).Scan(&n); err != nil || n != 30 {
+		return fmt.Sprintf("FAIL %d live rows after the vacuum (30 expected) %v", n, err)
+	}
+	times, err := rowTimes(px, bucket, "t0")
+	if err != nil {
+		return "FAIL read: " + err.Error()
+	}
+	if len(times) != 30 {
+		return fmt.Sprintf("FAIL the vacuumed tree holds %d entries for 30 live rows: %d delete markers older than the cutoff were not reclaimed", len(times), len(times)-30)
+	}
+	return "ok"
+}
+
+// C18: a prefix written WITHOUT node encryption is refused by a client configured with a node
+// encryptor (what is stored is not a box sealed under its key), not read as if it were trusted
+func probeUnencryptedRefused() string {
+	st := newFakeS3()
+	cfg := kv.Config{
+		Storage:    &kv.S3BucketInfo{EndpointURL: "fake", BucketName: "b", Prefix: "mix"},
+		KeysLike:   "key",
+		ValuesLike: "value",
+	}
+	ctx := context.Background()
+	db, err := kv.Open(ctx, st, cfg, kv.OpenOptions{}, time.Unix(1700000000, 0))
+	if err != nil {
+		return "FAIL open: " + err.Error()
+	}
+	for i := 0; i < 5; i++ {
+		if err := db.Set(ctx, time.Unix(1700000000+int64(i), 0), fmt.Sprintf("k%d", i), fmt.Sprintf("plain-%d", i)); err != nil {
+			return "FAIL set: " + err.Error()
+		}
+	}
+	if _, err := db.Commit(ctx); err != nil {
+		return "FAIL commit: " + err.Error()
+	}
+	cfg2 := cfg
+	cfg2.NodeEncryptor = kv.V1NodeEncryptor([]byte("passphrase"))
+	db2, err := kv.Open(ctx, st, cfg2, kv.OpenOptions{ReadOnly: true}, time.Unix(1700000100, 0))
+	if err != nil {
+		return "ok"
+	}
+	var v string
+	found, err := db2.Get(ctx, "k1", &v)
+	if err != nil {
+		return "ok"
+	}
+	return fmt.Sprintf("FAIL a client with a node encryptor read a node that is not sealed under its key (found=%v value=%q)", found, v)
+}
+
+// C20: the documented arguments are accepted in whatever order they are written: every rotation and
+// the reversal of a full, valid argument list (bucket, endpoint, prefix, columns, entries_per_node,
+// node_cache_entries) creates a table that can be written and read
+func probeArgOrder() string {
+	px := getProxy()
+	bucket := fmt.Sprintf("pao%d", nextCounter())
+	if err := px.backend.CreateBucket(bucket); err != nil {
+		return "FAIL setup: " + err.Error()
+	}
+	db, err := sql.Open("sqlite3", ":memory:")
+	if err != nil {
+		return "FAIL " + err.Error()
+	}
+	defer db.Close()
+	db.SetMaxOpenConns(1)
+	base := []string{"s3_bucket='" + bucket + "'", "s3_endpoint='" + px.url + "'", "s3_prefix='%s'", "columns='k primary key, v'", "entries_per_node=8", "node_cache_entries=16"}
+	var orders [][]string
+	for r := 0; r < len(base); r++ {
+		orders = append(orders, append(append([]string{}, base[r:]...), base[:r]...))
+	}
+	rev := make([]string, len(base))
+	for i, a := range base {
+		rev[len(base)-1-i] = a
+	}
+	orders = append(orders, rev)
+	for i, o := range orders {
+		name := fmt.Sprintf("pao_t%d", nextCounter())
+		args := fmt.Sprintf(strings.Join(o, ", "), fmt.Sprintf("p%d", i))
+		if _, err := db.Exec("create virtual table " + name + " using s3db(" + args + ")"); err != nil {
+			return "FAIL a CREATE with valid arguments written in the order (" + strings.ReplaceAll(args, px.url, "<endpoint>") + ") is refused: " + err.Error()
+		}
+		if _, err := db.Exec("insert into " + name + " values (1, 'x')"); err != nil {
+			return "FAIL insert: " + err.Error()
+		}
+		var v string
+		if err := db.QueryRow("select v from " + name + " where k=1").Scan(&v); err != nil || v != "x" {
+			return fmt.Sprintf("FAIL read back %q %v", v, err)
+		}
 	}
 	return "ok"
 }
